@@ -100,6 +100,23 @@ def run(ch, build):
                 scns.append(scn)
     outs = conn.run_scenarios(scns)
     hist.replay(ch, scns, outs, (hook,), "c11")
+    # over the library's real UDP transport: every reply is followed, hard on its heels, by a duplicate of the previous
+    # command's reply (a stray that is in the socket while the accepted reply is being used); many exchanges, because what
+    # such a stray can disturb depends on scheduling
+    uscns = []
+    for k in range(4 if ch.quick() else 16):
+        pool = [c for c in hist.command_pool(rng, False) if c["name"] in ("getsystemguid", "authcaps", "getdeviceid", "getchassisstatus", "ciphersuites", "getsdrrepoinfo")]
+        steps = [{"op": "cmd", "conn": "sessionless", "cmd": pool[0], "script": ["ok"]}]
+        for j in range(60):
+            steps.append({"op": "cmd", "conn": "sessionless", "cmd": pool[(j * 7 + k) % len(pool)], "script": ["okstray"] * 6})
+        uscns.append({"bmc": conn.default_bmc(seed=900 + k, loose=True, guid=bytes(rng.randrange(256) for _ in range(16)).hex()), "timeout_ms": 300, "udp": True, "steps": steps})
+    for si, (scn, out) in enumerate(zip(uscns, conn.run_scenarios(uscns, spread=True))):
+        for ti, (step, res) in enumerate(zip(scn["steps"], out["steps"])):
+            desc = {"kind": "c11", "conn": "sessionless-udp", "cmd": step["cmd"]["name"], "script": step["script"][:1]}
+            ch.note_case("c11-udp-stray-behind-reply", "%d|%d|%s" % (si, ti, step["cmd"]))
+            if res.get("panic"):
+                ch.violation(dict(desc, kind="panic"), {"scenario": scn, "panic": res["panic"]}); continue
+            hook(ch, {"step": step, "res": res, "desc": desc, "scn": scn, "ti": ti})
     pend = ch.extra.pop("_c11", [])
     # decode the BMC's own answers with the model and compare with what the call returned
     lines, idx = [], []
